@@ -2,6 +2,7 @@ package main
 
 import (
 	"fmt"
+	"go/constant"
 	"go/token"
 	"go/types"
 	"regexp"
@@ -29,20 +30,115 @@ func flattenConcat(v ssa.Value, out *[]ssa.Value) {
 
 var framedFormat = regexp.MustCompile(`%[a-zA-Z][^%]+%[a-zA-Z]`)
 
-// keyConstruction describes how a composite string key is built and whether its two variable parts are separated.
-func (p *Prog) keyConstruction(v ssa.Value) (desc string, framed bool) {
-	if c, ok := v.(*ssa.Call); ok && p.calleeName(&c.Call) == "fmt.Sprintf" {
-		if f, ok := constString(c.Call.Args[0]); ok {
-			return "Sprintf(" + f + ")", framedFormat.MatchString(f)
-		}
-		return "Sprintf(?)", false
+// keyLeaves lists, in order, the pieces a composite key is assembled from: string concatenation, append chains
+// (a `buf[:0]` start is empty), conversions, a scratch buffer kept in a field (the value last stored into it in
+// the same function), package helpers returning the key, and fmt.Sprintf (constant pieces and one variable per verb).
+// An opaque piece is reported as nil.
+func (p *Prog) keyLeaves(v ssa.Value, depth int) []ssa.Value {
+	if depth > 6 || v == nil {
+		return []ssa.Value{nil}
 	}
-	var leaves []ssa.Value
-	flattenConcat(v, &leaves)
+	switch x := v.(type) {
+	case *ssa.Const:
+		return []ssa.Value{x}
+	case *ssa.Parameter:
+		return []ssa.Value{x}
+	case *ssa.Convert:
+		return p.keyLeaves(x.X, depth+1)
+	case *ssa.ChangeType:
+		return p.keyLeaves(x.X, depth+1)
+	case *ssa.BinOp:
+		if x.Op == token.ADD {
+			return append(p.keyLeaves(x.X, depth+1), p.keyLeaves(x.Y, depth+1)...)
+		}
+	case *ssa.Slice:
+		if x.High != nil {
+			if c, ok := constInt(x.High); ok && c == 0 {
+				return nil // buf[:0]
+			}
+		}
+		return []ssa.Value{nil}
+	case *ssa.UnOp:
+		if x.Op == token.MUL {
+			if o, f, _, ok := fieldOfAddr(x.X); ok && o != nil {
+				// the value last stored into this field before the load, in this function
+				var last ssa.Value
+				fn := x.Parent()
+				allInstrs(fn, func(in ssa.Instruction) {
+					if st, ok := in.(*ssa.Store); ok {
+						if o2, f2, _, ok := fieldOfAddr(st.Addr); ok && o2 == o && f2 == f && instrDominates(st, x) {
+							last = st.Val
+						}
+					}
+				})
+				if last != nil {
+					return p.keyLeaves(last, depth+1)
+				}
+			}
+		}
+		return []ssa.Value{x}
+	case *ssa.Call:
+		if b, ok := x.Call.Value.(*ssa.Builtin); ok && b.Name() == "append" && len(x.Call.Args) == 2 {
+			return append(p.keyLeaves(x.Call.Args[0], depth+1), p.keyLeaves(x.Call.Args[1], depth+1)...)
+		}
+		if p.calleeName(&x.Call) == "fmt.Sprintf" {
+			f, ok := constString(x.Call.Args[0])
+			if !ok {
+				return []ssa.Value{nil}
+			}
+			var out []ssa.Value
+			rest := f
+			for {
+				i := strings.IndexByte(rest, '%')
+				if i < 0 || i+1 >= len(rest) {
+					break
+				}
+				if i > 0 {
+					out = append(out, ssa.NewConst(constant.MakeString(rest[:i]), types.Typ[types.String]))
+				}
+				out = append(out, x) // one variable piece per verb
+				rest = rest[i+2:]
+			}
+			if rest != "" {
+				out = append(out, ssa.NewConst(constant.MakeString(rest), types.Typ[types.String]))
+			}
+			return out
+		}
+		if g := x.Call.StaticCallee(); g != nil && p.InPkg(g) && len(g.Blocks) > 0 && g.Signature.Results().Len() == 1 {
+			var first []ssa.Value
+			n := 0
+			for _, b := range g.Blocks {
+				if ret := retOf(b); ret != nil {
+					n++
+					lv := p.keyLeaves(retVal(ret, 0), depth+1)
+					if n == 1 {
+						first = lv
+					} else if len(lv) != len(first) {
+						return []ssa.Value{nil}
+					}
+				}
+			}
+			if n > 0 {
+				return first
+			}
+		}
+		return []ssa.Value{nil}
+	}
+	return []ssa.Value{v}
+}
+
+// keyConstruction describes how a composite string key is built and whether its variable parts are separated.
+func (p *Prog) keyConstruction(v ssa.Value) (desc string, framed bool) {
+	leaves := p.keyLeaves(v, 0)
 	var parts []string
 	lastVar, sepSeen, framedOK := -1, false, len(leaves) > 0
 	nvars := 0
 	for i, l := range leaves {
+		if l == nil {
+			parts = append(parts, "?")
+			framedOK = false
+			continue
+		}
 		if s, ok := constString(l); ok {
 			parts = append(parts, fmt.Sprintf("%q", s))
 			if s != "" && lastVar >= 0 {
@@ -59,7 +155,7 @@ func (p *Prog) keyConstruction(v ssa.Value) (desc string, framed bool) {
 		sepSeen = false
 	}
 	if nvars < 2 {
-		framedOK = nvars == 1
+		framedOK = false
 	}
 	return strings.Join(parts, "+"), framedOK
 }
